@@ -15,7 +15,7 @@ import (
 )
 
 func init() {
-	props["C19"] = &propDef{extraPkgs: []string{jsonPatchPkg}, run: runC19, explanation: "Partial (panics raised by constructs in the module's own code and by the reviewed preconditions of third-party callees; not termination, stack depth or arbitrary third-party internals). Decided statically: a closed inventory of every panic-capable construct in the module functions reachable from the untrusted entry points — unchecked type assertions, dereferences (field access, load, pointer-receiver call, pass to a dereferencing callee) of pointers that JSON decoding can leave nil, index / slice expressions, explicit panic, integer division, make with computed size, definite nil dereferences (value tested nil on the path and then used), and interface-keyed map accesses and interface comparisons with possibly unhashable values, and calls with panicking preconditions (ed25519 key sizes; json-patch v4.1.0 Apply, which must run under a deferred recover that becomes an error, receive one operation per call and be preceded by a copy-into-itself check, because the library copy aliases nodes) — each discharged by a dominating guard found by the must-pass-through engine (through helper boundaries) or by a reviewed one-line reason keyed by function and expression. Anything undischarged is a violation naming the construct. The copy-into-itself check reads array-index tokens with the strconv function(s) the library's array containers use. The canonicalizer's table rules (C05) run inside this check; reviewed entries are keyed by the enclosing named function and the expression, with the dominating conditions they need. C19.Z (known-nil handed to a dereferencing callee), C19.N on (nil,nil)-helper results; the C05 scanner rules (including the position-loop rule, a necessary condition of termination) run here."}
+	props["C19"] = &propDef{extraPkgs: []string{jsonPatchPkg}, run: runC19, explanation: "Partial (panics raised by constructs in the module's own code and by the reviewed preconditions of third-party callees; not termination, stack depth or arbitrary third-party internals). Decided statically: a closed inventory of every panic-capable construct in the module functions reachable from the untrusted entry points — unchecked type assertions, dereferences (field access, load, pointer-receiver call, pass to a dereferencing callee) of pointers that JSON decoding can leave nil, index / slice expressions, explicit panic, integer division, make with computed size, definite nil dereferences (value tested nil on the path and then used), and interface-keyed map accesses and interface comparisons with possibly unhashable values, and calls with panicking preconditions (ed25519 key sizes; json-patch v4.1.0 Apply, which must run under a deferred recover that becomes an error, receive one operation per call and be preceded by a copy-into-itself check, because the library copy aliases nodes) — each discharged by a dominating guard found by the must-pass-through engine (through helper boundaries) or by a reviewed one-line reason keyed by function and expression. Anything undischarged is a violation naming the construct. The copy-into-itself check reads array-index tokens with the strconv function(s) the library's array containers use. The canonicalizer's table rules (C05) run inside this check; reviewed entries are keyed by the enclosing named function and the expression, with the dominating conditions they need. C19.Z (known-nil handed to a dereferencing callee), C19.N on (nil,nil)-helper results; the C05 scanner rules (including the position-loop rule, a necessary condition of termination) run here. The parser's validator fields are written by New and their own options only (never nil); reviewed entries follow call-and-wrap helpers."}
 }
 
 // reviewedPanicSites: function (short name) -> expression (canonical path / description) -> reason.
@@ -228,6 +228,7 @@ type c19 struct {
 	requires map[*ssa.Function]map[int]bool // callee dereferences parameter i without its own nil guard
 	reach    []*ssa.Function
 	counts   map[string]int
+	wraps    map[*ssa.Function][][2]string
 }
 
 // derefUses: instructions that dereference pointer value v (panic if v is nil).
@@ -334,7 +335,61 @@ func exprKey(c *Ctx, in ssa.Instruction) string {
 	return in.String()
 }
 
+// wrapRenames: calls in f of a call-and-wrap helper — an unexported function that calls the function it is handed and,
+// only when that call reported no error, hands its first result on — read as the call the helper makes: (helper call
+// path, inner call path in f's frame).
+func (k *c19) wrapRenames(f *ssa.Function) [][2]string {
+	if r, ok := k.wraps[f]; ok {
+		return r
+	}
+	c := k.c
+	var out [][2]string
+	forEachInstr(f, func(in ssa.Instruction) {
+		cl, ok := in.(*ssa.Call)
+		if !ok {
+			return
+		}
+		g := cl.Call.StaticCallee()
+		if g == nil || !inModule(g) || g.Blocks == nil || g.Object() == nil || g.Object().Exported() || !returnsError(g) {
+			return
+		}
+		srs := successReturns(g)
+		if len(srs) != 1 || len(srs[0].Results) < 2 {
+			return
+		}
+		ex, isEx := returnedValue(srs[0], 0).(*ssa.Extract)
+		if !isEx || ex.Index != 0 {
+			return
+		}
+		inner, isC := ex.Tuple.(*ssa.Call)
+		if !isC || inner.Call.IsInvoke() {
+			return
+		}
+		if _, isP := inner.Call.Value.(*ssa.Parameter); !isP {
+			return
+		}
+		if okG, _, n := c.Guard(g, nil, &GCheck{Name: "the handed-in function reported no error", NoDescend: true, MatchCall: func(c *Ctx, call *ssa.Call, env Env) bool { return call == inner }}, nil); !okG || n == 0 {
+			return
+		}
+		genv := c.calleeEnv(&cl.Call, g, nil)
+		to := c.Path(inner, genv)
+		if strings.HasPrefix(to, "dyn:") {
+			return
+		}
+		out = append(out, [2]string{c.Path(cl, nil), to})
+	})
+	if k.wraps == nil {
+		k.wraps = map[*ssa.Function][][2]string{}
+	}
+	k.wraps[f] = out
+	return out
+}
+
 func (k *c19) isReviewed(f *ssa.Function, expr string, site ...ssa.Instruction) (string, bool) {
+	rens := k.wrapRenames(f)
+	for _, rn := range rens {
+		expr = strings.ReplaceAll(expr, rn[0], rn[1])
+	}
 	m := reviewedPanicSites[reviewedFnKey(short(f.String()))]
 	var es []reviewedEntry
 	if m != nil {
@@ -397,6 +452,11 @@ func (k *c19) isReviewed(f *ssa.Function, expr string, site ...ssa.Instruction) 
 	haveSite := len(site) > 0 && site[0] != nil && site[0].Block() != nil
 	if haveSite {
 		conds = k.c.condsOf(site[0].Block())
+		for i := range conds {
+			for _, rn := range rens {
+				conds[i] = strings.ReplaceAll(conds[i], rn[0], rn[1])
+			}
+		}
 		if os.Getenv("STCHECK_CONDS") != "" {
 			fmt.Printf("CONDS %s :: %s :: %v\n", short(f.String()), expr, conds)
 		}
@@ -426,7 +486,7 @@ func (k *c19) isReviewed(f *ssa.Function, expr string, site ...ssa.Instruction) 
 func runC19(c *Ctx) {
 	// reviewed reasons of the canonicalizer's table accesses rest on the escape tables being aligned (C05.T1) — and the
 	// canonicalizer is the first thing untrusted bytes meet: its table rules are part of this check
-	runC05(c)
+	c.apart(runC05)
 	c19Reviewed()
 	k := &c19{c: c, nf: c.nullableFields(), counts: map[string]int{}}
 	entries := c.c19Entries()
@@ -490,7 +550,10 @@ func runC19(c *Ctx) {
 	c.extra["reviewed_sites"] = rv
 	c.extra["site_counts"] = k.counts
 	c.Min("C19.A", 3)
-	c.Min("C19.N", 15)
+	// the parser invokes its two validator collaborators without a nil test: they are never nil because only New (a
+	// default, on every path) and the field's own option (behind a nil test) write them
+	c.validatorFieldsRule("C19.N", "anchorOriginValidator", "anchorTimeValidator")
+	c.Min("C19.N", 21)
 	c.Min("C19.B", 25)
 	c.Min("C19.G", 2)
 	c.Assume("termination, recursion depth and allocation size are not decided; third-party code is covered only through the precondition table (ed25519 key sizes, json-patch Apply under recover); encoding/json leaves pointer fields nil for absent or null members")
@@ -1158,6 +1221,15 @@ func (k *c19) sliceBounds(f *ssa.Function, s *ssa.Slice) {
 			}
 		}
 	}
+	// X[:len(Y)] where X is a list that only grows from Y: every value it may hold is Y itself or append(one of them, …)
+	if s.Low == nil && s.High != nil && s.Max == nil {
+		if ln, ok := s.High.(*ssa.Call); ok {
+			if bi, isB := ln.Call.Value.(*ssa.Builtin); isB && bi.Name() == "len" && growsFrom(s.X, ln.Call.Args[0]) {
+				k.obl("C19.B", key, true, instrPos(s), "the sliced list only grows (append) from the list whose length is the bound")
+				return
+			}
+		}
+	}
 	// X[i:i+1] with 0 <= i < len(X)
 	if s.Low != nil && s.High != nil && s.Max == nil {
 		if bo, ok := s.High.(*ssa.BinOp); ok && bo.Op == token.ADD && bo.X == s.Low {
@@ -1543,8 +1615,10 @@ func (k *c19) aliasingCopy(f *ssa.Function, cl *ssa.Call) {
 			return false
 		}
 		cs := c.stringConstsDeep(g, 3)
-		return cs["copy"] && cs["from"] && cs["path"]
+		return (cs["copy"] && cs["from"] && cs["path"]) || c.copyGuardOnMembers(call, env)
 	}}
+	// (the check handed the two pointers themselves runs for copies only: an operation whose "op" is not "copy" needs none)
+	notCopy := cmpAccept("the operation is not a copy", token.NEQ, func(p string) bool { return strings.Contains(p, `"op"`) }, pathIs(`"copy"`))
 	// "the same element" must mean what it means to the library: its array containers turn a reference token into an
 	// index with the strconv function(s) below; the module's check has to read numeric tokens with the same function,
 	// or two spellings the library treats as one element ("+0", "-0", "00") slip through
@@ -1585,7 +1659,7 @@ func (k *c19) aliasingCopy(f *ssa.Function, cl *ssa.Call) {
 		}
 	}
 	k.obl("C19.G", short(f.String())+": copy check reads array indices like the library", same, cl.Pos(), fmt.Sprintf("the library's array containers parse index tokens with %v; the module's copy-into-itself check parses them with %v", keysOfBool(libParse), keysOfBool(modParse)))
-	ok, w, _ := c.Guard(f, nil, chk, func(i ssa.Instruction) bool { return i == ssa.Instruction(cl) })
+	ok, w, _ := c.Guard(f, nil, anyOf("copy-into-itself refused, or not a copy", chk, notCopy), func(i ssa.Instruction) bool { return i == ssa.Instruction(cl) })
 	k.obl("C19.G", short(f.String())+": json-patch copy into itself refused", ok, cl.Pos(), why+"; before Apply the operation must have passed a check (a module function returning an error that inspects \"op\" == \"copy\", \"from\" and \"path\" of this operation) refusing a copy whose from is a proper prefix of its path", w...)
 }
 
@@ -2142,4 +2216,37 @@ func impliedByAny(have []string, need string) bool {
 		}
 	}
 	return false
+}
+
+// growsFrom: every value x may hold is base itself or the result of appending to such a value.
+func growsFrom(x, base ssa.Value) bool {
+	seen := map[ssa.Value]bool{}
+	var ok func(v ssa.Value, d int) bool
+	ok = func(v ssa.Value, d int) bool {
+		if v == base {
+			return true
+		}
+		if seen[v] {
+			return true
+		}
+		if d > 12 {
+			return false
+		}
+		seen[v] = true
+		switch y := v.(type) {
+		case *ssa.Phi:
+			for _, e := range y.Edges {
+				if !ok(e, d+1) {
+					return false
+				}
+			}
+			return true
+		case *ssa.Call:
+			if bi, isB := y.Call.Value.(*ssa.Builtin); isB && bi.Name() == "append" {
+				return ok(y.Call.Args[0], d+1)
+			}
+		}
+		return false
+	}
+	return ok(x, 0)
 }
